@@ -10,6 +10,16 @@ NOT_APPLICABLE = {
 for _p in ["C%02d" % i for i in range(1, 21)]:
     NOT_APPLICABLE.setdefault(_p, PENDING)
 CLAIMED = {
+    "C12": {
+        "text": "Decides, for all histories, that a save is free of effects on the workbook: type-level inventory of interior mutability reachable from Spreadsheet; no mutable lock acquisition reachable from any function that serialises a &Spreadsheet is on an object originating in the workbook (interprocedural origin tracing through parameters and closure captures); the tables handed to the part writers are created inside the save. The residual (private copy of the loaded table when a raw sheet exists) is a listed finding. Does not decide the textual content of the package.",
+        "note": NOTE,
+        "technique": "effect/ownership analysis: interior-mutability inventory by type, lock-acquisition origin tracing over the resolved call graph (MIR)",
+    },
+    "C16": {
+        "text": "Decides the schedule-quantified property by non-interference: no interior-mutable global state, a save mutably acquires only objects it created itself (C12 rules), and every remaining acquisition on workbook-shared state is a read whose guard's live range (MIR drops) contains no call that can reach another acquisition and whose result is not used for a decision after release. Hence concurrent savers share no mutable state, cannot deadlock, and every interleaving equals the sequential run. Does not enumerate interleavings.",
+        "note": NOTE,
+        "technique": "non-interference argument from effect analysis; guard live ranges and nesting from MIR drops + call-graph reachability",
+    },
     "C13": {
         "text": "Decides structural necessary conditions of all-or-nothing saving for every fault position: each save entry point (found by role) creates files only at names derived from the temporary name; fs::rename has (temp, destination) operands and is unreachable from the failure edge of any preceding fallible step; every BufWriter on the path is flushed with the result checked before the rename (interprocedural summary); no io::Result / XlsxError of an operation on a real sink is unwrapped or dropped on the save call graph; the step that writes the temp file can report failure. Does not decide crash timing or behaviour of the OS rename.",
         "note": NOTE,
